@@ -37,6 +37,33 @@ Definition ulink_sizes (fault : blk -> option err) (opened : blk -> res Z) (md :
 
 Definition sumz (l : list Z) : Z := fold_right Z.add 0 l.
 
+(* the sizes found before the first link whose size cannot be determined *)
+Definition usizes_prefix (fault : blk -> option err) (opened : blk -> res Z) (md : option udata) :=
+  fix go (i : nat) (ls : list plink) : list Z :=
+    match ls with
+    | [] => []
+    | l :: r => match ulink_size fault opened md i l with Ok sz => sz :: go (S i) r | _ => [] end
+    end.
+
+(* a child that was opened to be measured (dag-pb, no BlockSizes entry) *)
+Definition measured (md : option udata) (i : nat) (t : blk) : bool :=
+  match t with
+  | Pb _ _ => match (match md with Some m => nth_error (d_blocksizes m) i | None => None end) with Some _ => false | None => true end
+  | _ => false
+  end.
+
+(* makeReader handles the links one after the other: size, then - for the first child that is not skipped, when the offset
+   falls strictly inside it and it was not opened for measuring - Seek on its reader, which loads it on the spot.  The
+   error of that load, if the child is unavailable: it comes before any failure to measure a LATER link *)
+Definition seek_fault (fault : blk -> option err) (md : option udata) (off : Z) :=
+  fix go (i : nat) (ls : list plink) (sizes : list Z) (at_ : Z) : option err :=
+    match ls, sizes with
+    | PLink _ _ t :: r, sz :: sr =>
+      if at_ + sz <=? off then go (S i) r sr (at_ + sz)
+      else if (at_ <? off) && negb (measured md i t) then fault t else None
+    | _, _ => None
+    end.
+
 Section Unsized.
   Variable fault : blk -> option err.
 
@@ -103,7 +130,11 @@ Section Unsized.
               end
       | _ =>
         match ulink_sizes fault usize (node_meta d) 0 ls with
-        | Err e => SErr e                      (* makeReader fails before anything is delivered *)
+        | Err e =>                             (* makeReader fails before anything is delivered *)
+          SErr (match seek_fault fault (node_meta d) off 0 ls (usizes_prefix fault usize (node_meta d) 0 ls) 0 with
+                | Some e' => e'
+                | None => e
+                end)
         | Panic => SErr EOther
         | Ok sizes =>
           (fix go (ls : list plink) (sizes : list Z) (at_ : Z) : strm :=
